@@ -208,3 +208,157 @@ Example C03_hypotheses_satisfiable :
   (kn Qops U 4 <= 3#10)%Q /\ (3#10 < kn Qops U 5)%Q /\ (3 <= 4)%nat /\ (4 + 3 < length U)%nat /\
   (sumT Qops (basis_function Qops 3 U 4 (3#10)) == 1)%Q.
 Proof. cbv zeta. repeat split; try (vm_compute; congruence); try (cbn; lia). Qed.
+
+
+(* ====================== TRANSLATOR TIE (Proofs/GenTie*.v) ======================
+   coq/Gen/*.v is the Gallina rendering of the Python source produced by harness/pytrans.py; every run of ./check regenerates it from
+   /repo and compares it function by function with the committed text (evidence: translator_tie).  The theorems below say that the
+   hand-written model (the subject of the theorems above) computes, for ALL inputs satisfying the stated well-formedness, exactly what
+   the translated source computes. *)
+From Coq Require Import ZArith.
+From NV Require Import Gen.Prelude Gen.Linalg Gen.Knotvector Gen.Helpers Proofs.GenTieLib Proofs.GenTieKnots Proofs.GenTieSpan Proofs.GenTieBasis Proofs.GenTieBasisOne.
+
+
+
+Local Open Scope nat_scope.
+
+(* [G] helpers.find_span_linear; wf: the loop reads knot_vector[degree+1 .. num_ctrlpts-1] *)
+Theorem C03_gen_find_span_linear_R : forall (p : nat) (U : list R) (n : nat) (u : R),
+  n <= length U ->
+  Helpers.find_span_linear Rops (Z.of_nat p) U (Z.of_nat n) u = GOk (Z.of_nat (Basis.find_span_linear Rops p U n u)).
+Proof. exact find_span_linear_tie_R. Qed.
+Print Assumptions C03_gen_find_span_linear_R.
+Theorem C03_gen_find_span_linear_Q : forall (p : nat) (U : list Q) (n : nat) (u : Q),
+  n <= length U ->
+  Helpers.find_span_linear Qops (Z.of_nat p) U (Z.of_nat n) u = GOk (Z.of_nat (Basis.find_span_linear Qops p U n u)).
+Proof. exact find_span_linear_tie_Q. Qed.
+Print Assumptions C03_gen_find_span_linear_Q.
+
+(* [G] helpers.find_span_binsearch; tolq is the `tol` keyword (default 10e-6 = find_span_binsearch__default_tol), it only
+   enters int(round((low + high) / 2 + tol)); no sortedness needed: where the Python loop does not terminate (e.g. a
+   parameter below the domain) both sides run out of the same fuel *)
+Theorem C03_gen_find_span_binsearch_R : forall (tolq : ratio) (tol : R) (p : nat) (U : list R) (num : nat) (u : R),
+  (0 < tolq)%Q -> (tolq < 1 # 2)%Q -> 1 <= num -> num + 1 < length U -> p + 1 < length U ->
+  Helpers.find_span_binsearch Rops (Z.of_nat p) U (Z.of_nat num) u tolq =
+  match Basis.find_span_binsearch Rops tol p U num u with Some m => GOk (Z.of_nat m) | None => GErr OutOfFuel end.
+Proof. exact find_span_binsearch_tie_R. Qed.
+Print Assumptions C03_gen_find_span_binsearch_R.
+Theorem C03_gen_find_span_binsearch_Q : forall (tolq : ratio) (tol : Q) (p : nat) (U : list Q) (num : nat) (u : Q),
+  (0 < tolq)%Q -> (tolq < 1 # 2)%Q -> 1 <= num -> num + 1 < length U -> p + 1 < length U ->
+  Helpers.find_span_binsearch Qops (Z.of_nat p) U (Z.of_nat num) u tolq =
+  match Basis.find_span_binsearch Qops tol p U num u with Some m => GOk (Z.of_nat m) | None => GErr OutOfFuel end.
+Proof. exact find_span_binsearch_tie_Q. Qed.
+Print Assumptions C03_gen_find_span_binsearch_Q.
+
+(* [G] helpers.find_spans with the default func = find_span_linear *)
+Theorem C03_gen_find_spans_R : forall (p : nat) (U : list R) (n : nat) (knots : list R),
+  n <= length U ->
+  Helpers.find_spans Rops (Z.of_nat p) U (Z.of_nat n) knots (Helpers.find_span_linear Rops) =
+  GOk (map (fun u => Z.of_nat (Basis.find_span_linear Rops p U n u)) knots).
+Proof. exact find_spans_tie_R. Qed.
+Print Assumptions C03_gen_find_spans_R.
+Theorem C03_gen_find_spans_Q : forall (p : nat) (U : list Q) (n : nat) (knots : list Q),
+  n <= length U ->
+  Helpers.find_spans Qops (Z.of_nat p) U (Z.of_nat n) knots (Helpers.find_span_linear Qops) =
+  GOk (map (fun u => Z.of_nat (Basis.find_span_linear Qops p U n u)) knots).
+Proof. exact find_spans_tie_Q. Qed.
+Print Assumptions C03_gen_find_spans_Q.
+
+(* [G] helpers.find_multiplicity (tol = the keyword argument): no condition *)
+Theorem C03_gen_find_multiplicity_R : forall (tol u : R) (U : list R),
+  Helpers.find_multiplicity Rops u U tol = GOk (Z.of_nat (Basis.find_multiplicity Rops tol u U)).
+Proof. exact find_multiplicity_tie_R. Qed.
+Print Assumptions C03_gen_find_multiplicity_R.
+Theorem C03_gen_find_multiplicity_Q : forall (tol u : Q) (U : list Q),
+  Helpers.find_multiplicity Qops u U tol = GOk (Z.of_nat (Basis.find_multiplicity Qops tol u U)).
+Proof. exact find_multiplicity_tie_Q. Qed.
+Print Assumptions C03_gen_find_multiplicity_Q.
+
+(* [G] helpers.basis_function (A2.2); wf: degree <= span + 1 (else knot_vector[span + 1 - j] wraps around), span + degree < len *)
+Theorem C03_gen_basis_function_R : forall (p : nat) (U : list R) (sp : nat) (u : R),
+  p <= sp + 1 -> sp + p < length U ->
+  Helpers.basis_function Rops (Z.of_nat p) U (Z.of_nat sp) u = GOk (Basis.basis_function Rops p U sp u).
+Proof. exact basis_function_tie_R. Qed.
+Print Assumptions C03_gen_basis_function_R.
+Theorem C03_gen_basis_function_Q : forall (p : nat) (U : list Q) (sp : nat) (u : Q),
+  p <= sp + 1 -> sp + p < length U ->
+  Helpers.basis_function Qops (Z.of_nat p) U (Z.of_nat sp) u = GOk (Basis.basis_function Qops p U sp u).
+Proof. exact basis_function_tie_Q. Qed.
+Print Assumptions C03_gen_basis_function_Q.
+
+(* [G] helpers.basis_functions (zip over spans and knots) *)
+Theorem C03_gen_basis_functions_R : forall (p : nat) (U : list R) (spans : list nat) (us : list R),
+  (forall sp, In sp spans -> p <= sp + 1 /\ sp + p < length U) ->
+  Helpers.basis_functions Rops (Z.of_nat p) U (map Z.of_nat spans) us = GOk (Basis.basis_functions Rops p U spans us).
+Proof. exact basis_functions_tie_R. Qed.
+Print Assumptions C03_gen_basis_functions_R.
+Theorem C03_gen_basis_functions_Q : forall (p : nat) (U : list Q) (spans : list nat) (us : list Q),
+  (forall sp, In sp spans -> p <= sp + 1 /\ sp + p < length U) ->
+  Helpers.basis_functions Qops (Z.of_nat p) U (map Z.of_nat spans) us = GOk (Basis.basis_functions Qops p U spans us).
+Proof. exact basis_functions_tie_Q. Qed.
+Print Assumptions C03_gen_basis_functions_Q.
+
+(* [G] helpers.basis_function_one (A2.4); wf: span + degree + 1 < len *)
+Theorem C03_gen_basis_function_one_R : forall (p : nat) (U : list R) (sp : nat) (u : R),
+  sp + p + 1 < length U ->
+  Helpers.basis_function_one Rops (Z.of_nat p) U (Z.of_nat sp) u = GOk (Basis.basis_function_one Rops p U sp u).
+Proof. exact basis_function_one_tie_R. Qed.
+Print Assumptions C03_gen_basis_function_one_R.
+Theorem C03_gen_basis_function_one_Q : forall (p : nat) (U : list Q) (sp : nat) (u : Q),
+  sp + p + 1 < length U ->
+  Helpers.basis_function_one Qops (Z.of_nat p) U (Z.of_nat sp) u = GOk (Basis.basis_function_one Qops p U sp u).
+Proof. exact basis_function_one_tie_Q. Qed.
+Print Assumptions C03_gen_basis_function_one_Q.
+
+(* [G] linalg.linspace (the literal 10e-8 of the source is the model's tol8 argument: lit_10e_8 = olit K 1 10000000): no condition *)
+Theorem C03_gen_linspace_R : forall (start stop : R) (num decimals : Z),
+  Linalg.linspace Rops start stop num decimals = GOk (Knots.linspace Rops (lit_10e_8 Rops) start stop (Z.to_nat num)).
+Proof. exact linspace_tie_R. Qed.
+Print Assumptions C03_gen_linspace_R.
+Theorem C03_gen_linspace_Q : forall (start stop : Q) (num decimals : Z),
+  Linalg.linspace Qops start stop num decimals = GOk (Knots.linspace Qops (lit_10e_8 Qops) start stop (Z.to_nat num)).
+Proof. exact linspace_tie_Q. Qed.
+Print Assumptions C03_gen_linspace_Q.
+
+(* [G] knotvector.generate: ValueError exactly when the model rejects; no other condition *)
+Theorem C03_gen_generate_R : forall (p n : nat) (clamped : bool),
+  Knotvector.generate Rops (Z.of_nat p) (Z.of_nat n) clamped =
+  res_to_gres (fun x => x) ValueError IndexError (Knots.generate Rops (lit_10e_8 Rops) p n clamped).
+Proof. exact generate_tie_R. Qed.
+Print Assumptions C03_gen_generate_R.
+Theorem C03_gen_generate_Q : forall (p n : nat) (clamped : bool),
+  Knotvector.generate Qops (Z.of_nat p) (Z.of_nat n) clamped =
+  res_to_gres (fun x => x) ValueError IndexError (Knots.generate Qops (lit_10e_8 Qops) p n clamped).
+Proof. exact generate_tie_Q. Qed.
+Print Assumptions C03_gen_generate_Q.
+
+(* [G] knotvector.normalize (the final rounding to `decimals` digits is not modelled: fround = identity) *)
+Theorem C03_gen_normalize_R : forall (U : list R) (decimals : Z),
+  Knotvector.normalize Rops U decimals = res_to_gres (fun x => x) ValueError IndexError (Knots.normalize Rops U).
+Proof. exact normalize_tie_R. Qed.
+Print Assumptions C03_gen_normalize_R.
+Theorem C03_gen_normalize_Q : forall (U : list Q) (decimals : Z),
+  Knotvector.normalize Qops U decimals = res_to_gres (fun x => x) ValueError IndexError (Knots.normalize Qops U).
+Proof. exact normalize_tie_Q. Qed.
+Print Assumptions C03_gen_normalize_Q.
+
+(* [G] knotvector.check *)
+Theorem C03_gen_check_R : forall (p : nat) (U : list R) (n : nat),
+  Knotvector.check Rops (Z.of_nat p) U (Z.of_nat n) = res_to_gres (fun x => x) ValueError IndexError (Knots.check Rops p U n).
+Proof. exact check_tie_R. Qed.
+Print Assumptions C03_gen_check_R.
+Theorem C03_gen_check_Q : forall (p : nat) (U : list Q) (n : nat),
+  Knotvector.check Qops (Z.of_nat p) U (Z.of_nat n) = res_to_gres (fun x => x) ValueError IndexError (Knots.check Qops p U n).
+Proof. exact check_tie_Q. Qed.
+Print Assumptions C03_gen_check_Q.
+
+(* non-vacuity: hypotheses satisfiable and both sides evaluated on degree 3 with a repeated interior knot *)
+Example C03_gen_nonvacuous :
+  let U := [0; 0; 0; 0; 1#4; 1#2; 1#2; 3#4; 1; 1; 1; 1]%Q in
+  (3 <= 4 + 1 /\ 4 + 3 < length U /\ 8 + 1 < length U)
+  /\ Helpers.basis_function Qops 3 U 4 (3#10)%Q = GOk [16#125; 56#125; 21#50; 1#250]%Q
+  /\ Helpers.basis_function_one Qops 3 U 3 (3#10)%Q = GOk (21#50)%Q
+  /\ Helpers.find_span_binsearch Qops 3 U 8 (1#2)%Q (Helpers.find_span_binsearch__default_tol Qops) = GOk 6%Z
+  /\ Helpers.find_span_linear Qops 3 U 8 (1#2)%Q = GOk 6%Z
+  /\ Helpers.find_multiplicity Qops (1#2)%Q U (Helpers.find_multiplicity__default_tol Qops) = GOk 2%Z.
+Proof. cbv zeta. repeat split; try (vm_compute; reflexivity); simpl; lia. Qed.
